@@ -230,7 +230,9 @@ def powf_rules(rep, prog, which):
     """std / libm: recip_sqrt(x) = powf(x, -0.5)"""
     cfg = prog.config
     cands = [b for p, b in prog.bodies.items() if p.endswith("recip_sqrt") and "math::float" in p and ("RecipSqrt" in p if which == "std" else "::libm::" in p)]
-    rep.floor("C20.F4.%s" % which, len(cands), 1, "recip_sqrt of the %s back-end" % which)
+    if not cands:
+        rep.notes.append("C20.F4: the %s back-end has no recip_sqrt body of its own in this tree (F5|normalize decides what normalisation really calls)" % which)
+        rep.inst("C20.F4", "%s recip_sqrt: no own body (see F5 normalize)" % which, config=cfg)
     for b in cands:
         rt = ret_term(b)
         ok = rt[0] == "call" and last_seg(rt[1]) == "powf" and T.strip(rt[2][0], refs=True) == ("param", 1) and T.strip(rt[2][1], refs=True) == ("const", "f32", -0.5)
@@ -272,6 +274,18 @@ def caller_rules(rep, prog):
             rep.violate("C20.F5", "F5|%s" % path.rsplit("math::", 1)[-1], b.where(),
                         "%s does not call the %s function of the configured float back-end (calls %s)" % (path, "/".join(stems), fl), config=cfg)
     rep.floor("C20.F5.callers.%s" % cfg, n, 6, "angle API functions that reach the float back-end")
+    # normalisation: Vector::normalize must use the reciprocal square root of the CONFIGURED back-end (the fast fallback estimate has a
+    # relative error of about 2e-3, three orders above what unit vectors are compared with)
+    nb = [b for p_, b in prog.bodies.items() if p_.startswith("retrofire_core::math::vec::Vector::<") and p_.endswith("::normalize")]
+    rep.floor("C20.F5.normalize.%s" % cfg, len(nb), 1, "Vector::normalize")
+    want = {"ws": ("RecipSqrt", "powf"), "std": ("RecipSqrt", "powf"), "libm": ("float::libm::recip_sqrt",), "mm": ("float::mm::recip_sqrt",)}[cfg]
+    for b in nb:
+        rs = [((t["callee"].get("res") or {}).get("path") or t["callee"]["path"]) for _bi, t in b.calls() if t.get("callee") and "recip_sqrt" in t["callee"]["path"]]
+        ok = len(rs) >= 1 and all(any(w in x for w in want) for x in rs)
+        rep.inst("C20.F5", "Vector::normalize calls %s (expected the %s back-end's recip_sqrt): %s" % (rs, cfg, ok), config=cfg)
+        if not ok:
+            rep.violate("C20.F5", "F5|normalize", b.where(), "Vector::normalize does not use the reciprocal square root of the configured float back-end (calls %s; expected one of %s): "
+                        "normalised vectors miss unit length by the error of the substituted approximation" % (rs, list(want)), config=cfg)
 
 
 def profile_rule(rep, cfg):
